@@ -11,7 +11,7 @@
 From mathcomp Require Import all_ssreflect all_fingroup all_algebra.
 From mathcomp Require Import mxtens.
 Require Import C05.ModelBase C05.ModelCG C05.Model.
-Require Import C05.ProofsAlg C05.ProofsLog C05.ProofsBridge C05.ProofsConv.
+Require Import C05.ProofsAlg C05.ProofsLog C05.ProofsBridge C05.ProofsLRRAD C05.ProofsKron C05.ProofsConv.
 Set Implicit Arguments. Unset Strict Implicit. Unset Printing Implicit Defensive.
 Import GRing.Theory Num.Theory.
 Local Open Scope ring_scope.
@@ -84,6 +84,23 @@ Theorem C05_kron_logdet_model : forall (F : rcfType) (ln : F -> F) (S : settings
   0 < k_clamp S -> all (fun x => k_clamp S <= x) (kron_evals (ArR ln) eigh fs) ->
   kron_logdet (ArR ln) eigh S fs = ln (kron_prod ln [seq factor_evals (ArR ln) eigh f | f <- fs]).
 Proof. exact kron_logdet_correct. Qed.
+
+(* Two factors, end to end on the model: the dense Kronecker product the model denotes is mathcomp's tensor product, and
+   KroneckerProductLinearOperator._logdet (per-factor eigh, Kronecker product of the eigenvalue lists, clamp, log, sum)
+   equals ln det of it, provided eigh returns eigendecompositions (eigh_ok) and no eigenvalue product is below the clamp. *)
+Theorem C05_kron_dense_is_tensor : forall (F : rcfType) (ln : F -> F) (m p : nat) (X Y : mat F),
+  mx_of ln (m * p) (m * p) (kron2 (ArR ln) m p X Y) = mx_of ln m m X *t mx_of ln p p Y.
+Proof. exact kron2_tens. Qed.
+
+Theorem C05_kron_logdet_end_to_end : forall (F : rcfType) (ln : F -> F) (S : settings F)
+    (eigh : nat -> mat F -> vec F * mat F) (m p : nat) (X Y : mat F),
+  (forall x y, 0 < x -> 0 < y -> ln (x * y) = ln x + ln y) ->
+  0 < k_clamp S ->
+  eigh_ok ln eigh (m, X) -> eigh_ok ln eigh (p, Y) ->
+  all (fun x => k_clamp S <= x) (kron_evals (ArR ln) eigh [:: (m, X); (p, Y)]) ->
+  kron_logdet (ArR ln) eigh S [:: (m, X); (p, Y)] =
+  ln (\det (mx_of ln (m * p) (m * p) (kron_dense (ArR ln) [:: (m, X); (p, Y)]))).
+Proof. exact kron2_logdet_end_to_end. Qed.
 
 (* Constant-diagonal shift (KroneckerProductAddedDiag with a ConstantDiag, AddedDiag._symeig):
    det (A + s I) = prod_i (lambda_i + s). *)
@@ -158,6 +175,49 @@ Theorem C05_chol_logdet_model : forall (F : rcfType) (ln : F -> F) (n : nat) (T 
   chol_logdet (ArR ln) n T = ln (\det (mx_of ln n n T *m (mx_of ln n n T)^T)).
 Proof. exact chol_logdet_correct. Qed.
 
+(* The Cholesky shortcut end to end for one batch member (the default route of every operator without an override):
+   if the factor the model computes is a Cholesky factor of M (chol_ok: lower triangular, non-zero diagonal, L L^T = M -
+   the contract of torch.linalg.cholesky, C06/C16), the model returns the DENSE values diag(R^T M^-1 R) and ln det M. *)
+Theorem C05_dense_route_inv_quad : forall (F : rcfType) (ln : F -> F) (n t : nat) (M : mat F) (R : cols F) (j : 'I_t),
+  chol_ok ln n M ->
+  dense_iq_col (ArR ln) n M (nth [::] R j) =
+  ((cols_mx ln n t R)^T *m invmx (mx_of ln n n M) *m cols_mx ln n t R) j j.
+Proof. exact dense_iq_col_correct. Qed.
+
+Theorem C05_dense_route_logdet : forall (F : rcfType) (ln : F -> F) (n : nat) (M : mat F),
+  (forall x y, 0 < x -> 0 < y -> ln (x * y) = ln x + ln y) -> chol_ok ln n M ->
+  dense_chol_logdet (ArR ln) n M = ln (\det (mx_of ln n n M)).
+Proof. exact dense_chol_logdet_correct. Qed.
+
+(* TriangularLinearOperator's sign rule: with a positive determinant the model returns sum ln|t_ii| = ln det T (never
+   the NaN placeholder); with a negative determinant it returns the placeholder (anan, = 0 in the exact instance). *)
+Theorem C05_tri_logdet_model : forall (F : rcfType) (ln : F -> F) (n : nat) (T : mat F),
+  (forall x y, 0 < x -> 0 < y -> ln (x * y) = ln x + ln y) ->
+  lower ln n T -> diag_nz ln n T -> 0 < \det (mx_of ln n n T) ->
+  tri_logdet (ArR ln) n T = ln (\det (mx_of ln n n T)).
+Proof. exact tri_logdet_correct. Qed.
+
+Theorem C05_tri_logdet_model_negative : forall (F : rcfType) (ln : F -> F) (n : nat) (T : mat F),
+  lower ln n T -> \det (mx_of ln n n T) < 0 -> tri_logdet (ArR ln) n T = anan (ArR ln).
+Proof. exact tri_logdet_negative. Qed.
+
+(* LowRankRootAddedDiagLinearOperator end to end: the model's capacitance matrix is I + U^T D^-1 U and its _logdet
+   (2 sum log diag chol(cap) + sum log d) is ln det (D + U U^T). *)
+Theorem C05_lrrad_cap_model : forall (F : rcfType) (ln : F -> F) (n k : nat) (U : mat F) (d : vec F),
+  (forall i, (i < n)%N -> vget (ArR ln) d i != 0) ->
+  mx_of ln k k (lrrad_cap (ArR ln) n k U d) =
+  1%:M + (mx_of ln n k U)^T *m invmx (diag_mx (cv_of ln n d)^T) *m mx_of ln n k U.
+Proof. exact lrrad_cap_mx. Qed.
+
+Theorem C05_lrrad_logdet_model : forall (F : rcfType) (ln : F -> F) (n k : nat) (U : mat F) (d : vec F),
+  (forall x y, 0 < x -> 0 < y -> ln (x * y) = ln x + ln y) ->
+  size d = n -> (forall i, (i < n)%N -> 0 < vget (ArR ln) d i) ->
+  chol_ok ln k (lrrad_cap (ArR ln) n k U d) ->
+  (forall i, (i < k)%N -> 0 < mget (ArR ln) (cholesky (ArR ln) k (lrrad_cap (ArR ln) n k U d)) i i) ->
+  lrrad_logdet (ArR ln) n k U d =
+  ln (\det (diag_mx (cv_of ln n d)^T + mx_of ln n k U *m (mx_of ln n k U)^T)).
+Proof. exact lrrad_logdet_correct. Qed.
+
 (* Triangular (lower) and diagonal / identity closed forms of the model. *)
 Theorem C05_tri_inv_quad_model : forall (F : rcfType) (ln : F -> F) (n t : nat) (T : mat F) (R : cols F) (j : 'I_t),
   lower ln n T -> diag_nz ln n T ->
@@ -203,6 +263,35 @@ Theorem C05_spectral_poly_partial : forall (F : fieldType) (k : nat) (V T : 'M[F
   horner_mx T p = V *m diag_mx (map_mx (horner p) lam) *m invmx V.
 Proof. exact horner_eig. Qed.
 
+(* slq_full_dimension (PARTIAL, polynomial f): if the tridiagonal matrix is T = Q^T At Q for an orthogonal n x n matrix Q
+   whose first column is the probe u (the hypothesis is C08's "the CG tridiagonal is the Lanczos matrix", not proved
+   here), then e_1^T p(T) e_1 = u^T p(At) u: once the budget reaches n the quadrature is the quadratic form of f(At). *)
+Theorem C05_slq_full_dimension_poly_partial : forall (F : fieldType) (k : nat) (Q At : 'M[F]_k.+1) (p : {poly F}),
+  Q^T *m Q = 1%:M ->
+  (horner_mx (Q^T *m At *m Q) p) 0 0 = ((col 0 Q)^T *m horner_mx At p *m col 0 Q) 0 0.
+Proof. exact poly_full_dimension. Qed.
+
+(* The model of InvQuadLogdet.forward + the preconditioner correction: whenever the forward pass succeeds (logdet forward
+   not skipped) the returned log-determinant of batch member b is
+       log|P_b| + sum over the m tridiagonal matrices T of that member of (n/m) sum_k V_T[0,k]^2 ln(lambda_T[k]),
+   (lambda_T, V_T) = lanczos_tridiag_to_diag(T), T the matrices the model of linear_cg returned for the probe columns. *)
+Theorem C05_stochastic_logdet_formula : forall (F : rcfType) (ln : F -> F) (S : settings F)
+    (eigh : nat -> mat F -> vec F * mat F) (bs : seq nat) (n : nat) (gs : seq (gmember F)) (R : rhs_in F)
+    (reduce : bool) (probes : cols F) (iq ld : out F),
+  ~~ s_skip_logdet_forward S ->
+  iql_forward (ArR ln) eigh S bs n gs R reduce probes = ROk (iq, ld) ->
+  exists o : cg_output F,
+    let m := s_num_trace_samples S in
+    let tm := odflt [::] (o_tmat o) in
+    let ldp := [seq if P is Some L then chol_logdet (ArR ln) n L else 0
+               | P <- [seq member_precond (ArR ln) S g | g <- gs]] in
+    ld = OVal bs (mkseq (fun b =>
+           let Ts := take m (drop (b * m) tm) in
+           \sum_(T <- Ts) n%:R / (size Ts)%:R * slq_probe (ArR ln) (tridiag_to_diag (ArR ln) eigh (size T) T)
+           + nth 0 ldp b)
+         (size gs)).
+Proof. exact iql_forward_logdet. Qed.
+
 (* lanczos_tridiag_to_diag: on a non-negative spectrum the negative-eigenvalue mask changes nothing *)
 Theorem C05_tridiag_mask_identity : forall (F : rcfType) (ln : F -> F)
     (eigh : nat -> mat F -> vec F * mat F) (k : nat) (T : mat F),
@@ -234,6 +323,63 @@ Theorem C05_shape_conventions_leaf : forall (F : Type) (A : Arith F) (eigh : nat
   ok_iq bs R reduce iq /\ ok_ld bs logdet ld.
 Proof. exact leaf_shape_conventions. Qed.
 
+(* ... and through the BlockDiag / BlockInterleaved / BatchRepeat wrappers, by induction over any nesting of them
+   (tensors without elements are passed on unchanged, as by the numel() guards of the code). *)
+Theorem C05_shape_conventions : forall (F : Type) (A : Arith F) (eigh : nat -> mat F -> vec F * mat F),
+  (forall x, aeqb A x x) ->
+  forall (S : settings F) (o : bop F) (R : rhs_in F) (logdet reduce : bool) (probes : cols F) (iq ld : out F),
+  balg A eigh S o R logdet reduce probes = ROk (iq, ld) ->
+  ok_iq' (bshape o) R reduce iq /\ ok_ld' (bshape o) logdet ld.
+Proof. exact shape_conventions. Qed.
+
 (* non-vacuity of the hypotheses used above *)
 Example C05_hyp_satisfiable_trig : is_trig_mx (1%:M : 'M[rat]_3).
 Proof. by apply/is_trig_mxP => i j ij; rewrite mxE; case: eqP ij => // ->; rewrite ltnn. Qed.
+
+(* a lower-triangular list matrix with non-zero diagonal; ln_mul is satisfied e.g. by the zero function (and by the real
+   logarithm); an orthogonal Q: the identity *)
+Example C05_hyp_satisfiable_lower (F : rcfType) (ln : F -> F) :
+  lower ln 2 [:: [:: 2; 0]; [:: 1; 3]] /\ diag_nz ln 2 [:: [:: 2; 0]; [:: 1; 3]].
+Proof.
+split.
+- by move=> [|[|i]] [|[|j]] //=.
+- by move=> [|[|i]] //= _; rewrite /mget /ModelBase.mget /= ?pnatr_eq0.
+Qed.
+
+Example C05_hyp_satisfiable_ln (F : realFieldType) :
+  forall x y : F, 0 < x -> 0 < y -> (fun _ : F => 0 : F) (x * y) = (fun _ => 0) x + (fun _ => 0) y.
+Proof. by move=> x y _ _; rewrite addr0. Qed.
+
+Example C05_hyp_satisfiable_orth (F : fieldType) (k : nat) : (1%:M : 'M[F]_k.+1)^T *m 1%:M = 1%:M.
+Proof. by rewrite trmx1 mulmx1. Qed.
+
+(* chol_ok is satisfiable: the 2 x 2 matrix [[4,2],[2,5]] = L L^T with L = [[2,0],[1,2]]; the model's Cholesky kernel
+   computes exactly this L in any real closed field *)
+Example C05_hyp_satisfiable_chol_ok (F : rcfType) (ln : F -> F) :
+  chol_ok ln 2 [:: [:: 4%:R; 2%:R]; [:: 2%:R; 5%:R]].
+Proof.
+have s4 : Num.sqrt (4%:R : F) = 2%:R.
+  by rewrite -[4%:R]/((2 * 2)%:R) natrM -expr2 sqrtr_sqr ger0_norm ?ler0n.
+have cE : cholesky (ArR ln) 2 [:: [:: 4%:R; 2%:R]; [:: 2%:R; 5%:R]] = [:: [:: 2%:R; 0]; [:: 1; 2%:R]] :> mat F.
+  rewrite /cholesky /chol_rows /chol_next /chol_row /= /ModelBase.mget /ModelBase.vget /ModelBase.sq /=.
+  rewrite !subr0 !add0r s4 divff ?pnatr_eq0 // mul1r.
+  have -> : (5%:R - 1 : F) = 4%:R by rewrite -[5%:R]/((4 + 1)%:R) natrD addrK.
+  by rewrite s4.
+rewrite /chol_ok cE /=; split.
+- by move=> [|[|i]] [|[|j]] //=.
+- move=> i i2; have [->|->] : i = 0%N \/ i = 1%N by case: i i2 => [|[|i]] //; [left|right].
+  + by rewrite /ModelBase.mget /= pnatr_eq0.
+  + by rewrite /ModelBase.mget /= pnatr_eq0.
+- apply/matrixP => i j; rewrite !mxE !big_ord_recl big_ord0 !mxE /ModelBase.mget /=.
+  case: i => [[|[|i]] //= hi]; case: j => [[|[|j]] //= hj]; rewrite ?mulr0 ?mul0r ?addr0 ?add0r ?mulr1 ?mul1r -?natrM //.
+Qed.
+
+(* eigh_ok is satisfiable: the 1 x 1 matrix [[2]] with eigenvalue 2 and eigenvector 1 *)
+Example C05_hyp_satisfiable_eigh_ok (F : rcfType) (ln : F -> F) :
+  eigh_ok ln (fun _ _ => ([:: 2%:R], [:: [:: 1]])) (1%N, [:: [:: 2%:R]]).
+Proof.
+rewrite /eigh_ok /=; split => //.
+- by rewrite unitmxE unitfE (_ : mx_of ln 1 1 [:: [:: 1]] = 1%:M) ?det1 ?oner_eq0 //; apply/matrixP => i j; rewrite !mxE !ord1.
+- by apply/matrixP => i j; rewrite !mxE !big_ord_recl !big_ord0 !mxE !ord1 /ModelBase.mget /= mulr1 mul1r mulr1n !addr0.
+- by rewrite ltr0n.
+Qed.
